@@ -91,10 +91,15 @@ Definition map_order {B : Type} (bl bl0 : list (nat * list B)) : Prop :=
   (forall l v, In (l, v) bl -> exists v0, In (l, v0) bl0 /\ Permutation v v0) /\
   (forall l v0, In (l, v0) bl0 -> exists v, In (l, v) bl /\ Permutation v v0).
 
-(** specutil.ObjectRef / TableSpecRef / ViewSpecRef (spec.go): the REFERENCE to an object (column type
-    [enum.s1.status], depends_on ...) is qualified iff another schema of the realm holds an object
-    of the same type and name -- the pass-2 condition only. *)
-Definition ObjectRef_qualified (specs : list qobj) (o : qobj) : bool := conflictb specs o.
+(** specutil.ObjectRef (spec.go), AFTER fix C20-qualify-objectref-schema-named: the REFERENCE to an
+    object (column type [enum.s1.status]) is qualified iff another schema of the realm holds an
+    object of the same type and name (objectConflict), or the object's name is the name of a schema
+    that holds such an object (qualifierSchema) -- the two conditions of QualifyObjects.
+    Before the fix only the first condition was applied ([ObjectRef_qualified_before_fix]; still the
+    shape of TableSpecRef / ViewSpecRef, which the OSS marshalers do not reach). *)
+Definition ObjectRef_qualified_before_fix (specs : list qobj) (o : qobj) : bool := conflictb specs o.
+Definition ObjectRef_qualified (specs : list qobj) (o : qobj) : bool :=
+  conflictb specs o || schema_used specs (q_label o).
 
 (** specutil.QualifyReferences (spec.go), after QualifyObjects on d.Tables:
       byRef[cref{s: t.Qualifier, t: t.Name}] = t          // error "duplicate references" if taken
